@@ -276,6 +276,27 @@ CLAIMED["C06"] = dict(
     technique="Lean 4 real-analysis proofs on a hand model of the rate kernels (Finset sums, coth identity) + table-driven correspondence and oracles",
     ref="DESIGN.md §5 C06")
 
+CLAIMED["C15"] = dict(
+    text="Lean 4 proof on a history model of the hidden fields that calls on shared objects read and write (refinement stored on a "
+         "density-matrix propagator, auxiliary operators kept on a hierarchy, remainder-coupling and basis-protection flags of the system "
+         "Hamiltonian, context depth), with calls as state transformers whose shape is re-extracted from the source on every run (the "
+         "bracket-call sequence of EVERY branch of get_RelaxationTensor incl. try/finally, how propagate treats Nref, the position of "
+         "reset_ados, the array recover_cutoff_coupling adds to): recover after subtract gives every coupling back exactly for every "
+         "value and cut-off (recover_subtract), every branch leaves the Hamiltonian's flags and the context depth as they were "
+         "(tensor_frame from branches_balanced_clean), state-vector / population / superoperator calls touch nothing (pure_frame), the "
+         "hierarchy result does not depend on earlier runs (heom_history_independent), and after ANY two histories that store no "
+         "refinement every call reads the same hidden values, i.e. its result is a function of its explicit inputs "
+         "(result_history_independent, history_frame); with refinement-storing histories only a propagate() that names no refinement "
+         "can differ (result_independent_except_default_propagate; default_propagate_depends_on_history formalises the recorded "
+         "finding). Results themselves are abstract. Tied to the code by random histories on ONE set of shared real objects: every "
+         "array/flag reachable from the inputs compared with its value before the history after every call, every repeated call "
+         "compared with its first result (inside/outside energy_units and eigenbasis_of, after failed calls), hidden fields compared "
+         "with the model, and the attributes propagate() creates or changes on the propagator compared with the declared set.",
+    note="Lean kernel + standard axioms; that no hidden field exists beyond the modelled ones is checked dynamically (attribute diff, "
+         "repeated calls), not proved; one open finding (sticky Nref argument).",
+    technique="Lean 4 induction over call histories on an extracted effect model + exact algebra of the cut-off bracket + history differential testing with deep snapshots",
+    ref="DESIGN.md §5 C15")
+
 NOT_APPLICABLE = {}
 
 
